@@ -113,7 +113,7 @@ class C10(HistoryCheck):
             role = world.role_of(inst)
             anys = [n for n, a in world.info(role).items() if a["kind"] == "any"]
             if anys:
-                v = s.choice(SPECIAL_VALUES + [["selfref", "direct"], ["selfref", "list"]])
+                v = s.choice(SPECIAL_VALUES + [["selfref", "direct"], ["selfref", "list"], ["selfref", "klist"], ["selfref", "dict"]])
                 return {"op": "set", "on": {"i": iid}, "a": s.choice(anys), "v": v, "id": world.fresh_id()}
         if world.insts and s.chance(0.08):
             # nested keyed item loses its key attribute (legal: `del item.k`); the parent's repr must cope
@@ -134,7 +134,16 @@ class C10(HistoryCheck):
             # a self reference is installed only for the duration of the repr check (the statement asks for repr
             # to cope with self-referential structures; copying / comparing cycles is not claimed anywhere)
             tgt = world.resolve(op["on"])
-            val = tgt if op["v"][1] == "direct" else [tgt]
+            how = op["v"][1]
+            val = tgt if how == "direct" else [tgt]
+            if how == "dict":
+                val = {"me": tgt}
+            elif how == "klist":
+                try:  # a cycle that runs through a KeyedList (keyed by the instance's key attribute, or by identity)
+                    from spec_classes.types import KeyedList
+                    val = KeyedList([tgt], key=(lambda o: getattr(o, "name", None) or id(o)))
+                except Exception:  # noqa: BLE001
+                    val = [tgt]
             had = op["a"] in tgt.__dict__
             old = tgt.__dict__.get(op["a"])
             tgt.__dict__[op["a"]] = val
